@@ -252,6 +252,16 @@ func emitRecord(idx int, in input, o dbccase.Outcome, importClass, importErr str
 				res.site = "emit:" + res.site
 			}
 		}()
+		// every fourth record carries dbc.Parse's answer in the parser's OTHER number mode (hexadecimal numbers
+		// enabled), so that tokens, outcome, error position, document and writer's text are recomputed by the
+		// model in that mode too; the import lines always come from the decimal mode ImportDBCFile uses
+		if idx%4 == 3 {
+			if oh := dbccase.ParseSafe(fmt.Sprintf("in%d.dbc", idx), in.text, true); oh.Class != "panic" {
+				dbccase.EmitCase(w, idx, in.stream, true, in.text, oh, extra)
+				res = stageResult{class: clsOK}
+				return
+			}
+		}
 		dbccase.EmitCase(w, idx, in.stream, false, in.text, o, extra)
 		res = stageResult{class: clsOK}
 	}()
